@@ -10,6 +10,17 @@ CHECKS = {
          "Exploration: every division entry point compared with exact BigUint quotient/remainder on generated (n,d) built to reach every dispatch arm, the Knuth add-back and forced-digit paths and all reciprocal corrections (reach measured by hook counters), complete enumeration of all operand pairs for widths <= 8 bits. No absence proof above 8 bits.",
          "Trusts num-bigint, the harness constructor (Uint::from_limbs), x86-64 LE; fixed width grid.", "DESIGN.md 4 C03"),
 }
+CHECKS.update({
+ "C01": ("property-based testing (proptest, boundary-alphabet generators) + exhaustive enumeration for BITS<=8, num-bigint differential oracle",
+         "Exploration: every add/sub/neg/abs_diff/Sum entry point compared with exact BigUint arithmetic mod 2^BITS and the exact overflow predicates, on generated pairs built to land within +-2 of the modulus and of zero and to ripple carries across limbs; complete enumeration of all pairs for widths <= 8 bits.",
+         "Trusts num-bigint, Uint::from_limbs, x86-64 LE; fixed width grid (30 widths incl. 0, 1, non-aligned, 1024, 4096).", "DESIGN.md 4 C01"),
+ "C02": ("property-based testing (proptest, zero-limb-shape and boundary-product generators) + exhaustive enumeration for BITS<=8, num-bigint differential oracle, validity predicate for inv_ring",
+         "Exploration: wrapping/overflowing/checked/saturating mul, operators, Product and widening_mul (24 width pairs) compared with exact BigUint products; operands built with zero low/high/middle limbs to reach every trimming path of addmul and products within +-1 of 2^BITS; inv_ring checked by the defining identity; complete enumeration for widths <= 8 bits.",
+         "Trusts num-bigint, Uint::from_limbs, x86-64 LE; fixed width grid and pair grid.", "DESIGN.md 4 C02"),
+ "C14": ("property-based testing (proptest, slice-level generators per kernel domain) + fixed enumeration of all 256 reciprocal table rows, num-bigint/u128 differential oracle, branch-coverage hook counters",
+         "Exploration: algorithms::div and every specialised kernel (n-by-1, n-by-2, n-by-m normalised and un-normalised, 2-by-1, 3-by-2, reciprocals) on their documented domains against exact quotient/remainder and the closed-form reciprocal; reach of every correction branch is measured by hook counters and reported in the evidence.",
+         "Trusts num-bigint/u128 division; div_nxm_normalized only on the shape used by the repo's own tests; div_3x2_ref excluded (documented off by one).", "DESIGN.md 4 C14"),
+})
 NOT_YET = {}
 
 def main():
